@@ -234,7 +234,7 @@ func c19CleanEnv(extra ...string) []string {
 func TestVerifC19Binary(t *testing.T) {
 	rep := kit.NewReport("C19", "binary")
 	defer rep.Write()
-	rep.SetRule("the real liftbridge binary (go build of $VERIF_REPO's main package) runs under `strace -f -e trace=connect` against a NATS server started by the harness; routes: telemetry.enabled: false in a config file; LIFTBRIDGE_TELEMETRY_ENABLED=false with a config file; the same with flags only (no config file); positive controls with telemetry on (defaults without proxy => resolver connect to port 53; config file + HTTPS_PROXY => CONNECT at the harness listener).  The binary is used over gRPC (stream with needle name, publishes), then stopped with SIGINT.  Oracle on the complete trace of an opt-out run: no connect() except unix sockets and loopback connections other than DNS / the proxy, and the proxy listener saw nothing.  non-trivial = binary served gRPC, exited 0 after SIGINT and the trace was parsed; distinct = route x proxy x round")
+	rep.SetRule("the real liftbridge binary (go build of $VERIF_REPO's main package) runs under `strace -f -e trace=connect` against a NATS server started by the harness; routes: telemetry.enabled: false in a config file; LIFTBRIDGE_TELEMETRY_ENABLED=false with a config file; the same with flags only (no config file); next to the opt-out the reporting interval is left unset or set to a positive value, 0 or a negative value (in the file resp. through LIFTBRIDGE_TELEMETRY_INTERVAL_SECONDS), rotating over routes and rounds; positive controls with telemetry on (defaults without proxy => resolver connect to port 53; config file + HTTPS_PROXY => CONNECT at the harness listener).  The binary is used over gRPC (stream with needle name, publishes), then stopped with SIGINT.  Oracle on the complete trace of an opt-out run: no connect() except unix sockets and loopback connections other than DNS / the proxy, and the proxy listener saw nothing.  non-trivial = binary served gRPC, exited 0 after SIGINT and the trace was parsed; distinct = route x proxy x round")
 	rep.Assume("the sandbox has no network: a telemetry attempt is visible as the resolver's connect() to port 53 (nameserver 127.0.0.1) or as a connect() to the HTTPS_PROXY listener; if neither positive control shows an attempt the unit is inconclusive and the in-process unit alone decides")
 	rep.Assume("main.go has no command-line flag for telemetry; the programmatic route is covered by the in-process unit")
 	work := os.Getenv("VERIF_WORK")
@@ -339,16 +339,45 @@ func TestVerifC19Binary(t *testing.T) {
 			"--port", strconv.Itoa(port), "--data-dir", dataDir, "--raft-bootstrap-seed", "--id", n.ServerID, "--namespace", n.Namespace, "--level", "info"}
 		var args []string
 		replay := map[string]any{"case": cs.Name, "route": cs.Route, "round": round, "seed": kit.Seed(), "proxy": cs.Proxy}
+		// the reporting interval written next to the opt-out must not matter:
+		// unset / positive / 0 / negative, rotating over routes and rounds
+		ivClass, ivLine, ivVal := "unset", "", 0
+		switch {
+		case cs.Name == "off-config-file-noproxy" && round%2 == 0:
+			ivClass, ivVal = "zero", 0
+		case cs.Name == "off-config-file-noproxy":
+			ivClass, ivVal = "negative", -rng.Range(1, 86400)
+		case cs.Name == "off-config-file" && round%2 == 1:
+			ivClass, ivVal = "positive", rng.Range(1, 5)
+		case cs.Expect == "zero" && strings.HasPrefix(cs.Route, "env-var") && round%2 == 1:
+			if (round/2)%2 == 0 {
+				ivClass, ivVal = "zero", 0
+			} else {
+				ivClass, ivVal = "negative", -rng.Range(1, 86400)
+			}
+		}
+		if ivClass != "unset" {
+			ivLine = fmt.Sprintf("  interval:\n    seconds: %d\n", ivVal)
+			replay["interval_class"] = ivClass
+			replay["interval_seconds"] = ivVal
+		}
 		switch cs.Route {
 		case "config-file":
-			replay["config_file"] = yaml("telemetry:\n  enabled: false\n")
+			replay["config_file"] = yaml("telemetry:\n  enabled: false\n" + ivLine)
 			args = []string{"--config", file}
 		case "env-var:with-config-file":
-			replay["config_file"] = yaml("")
+			if ivLine != "" {
+				replay["config_file"] = yaml("telemetry:\n" + ivLine)
+			} else {
+				replay["config_file"] = yaml("")
+			}
 			env = append(env, c19EnvVar+"=false")
 			args = []string{"--config", file}
 		case "env-var:no-config-file":
 			env = append(env, c19EnvVar+"=false")
+			if ivClass != "unset" {
+				env = append(env, fmt.Sprintf("LIFTBRIDGE_TELEMETRY_INTERVAL_SECONDS=%d", ivVal))
+			}
 			args = flagsOnly
 		case "control-default":
 			args = flagsOnly
@@ -532,7 +561,8 @@ func TestVerifC19Binary(t *testing.T) {
 		results = append(results, result{cs, round, true, attempts, plines, replay})
 		mu.Unlock()
 		rep.Count("binary_runs_completed", 1)
-		rep.Nontrivial(fmt.Sprintf("%s|proxy=%v|round%d", cs.Route, cs.Proxy, round))
+		rep.Count("binary_runs_interval_"+ivClass, 1)
+		rep.Nontrivial(fmt.Sprintf("%s|proxy=%v|interval=%s|round%d", cs.Route, cs.Proxy, ivClass, round))
 		os.RemoveAll(cdir)
 	})
 
@@ -573,8 +603,12 @@ func TestVerifC19Binary(t *testing.T) {
 			} else {
 				first = "proxy: " + r.proxy[0]
 			}
-			rep.Violation("C19:telemetry-sent-while-disabled:"+r.cs.Route,
-				fmt.Sprintf("real binary, telemetry switched off through route %q: the trace shows an outbound connection attempt (%s)", r.cs.Route, first), r.replay)
+			fp := "C19:telemetry-sent-while-disabled:" + r.cs.Route
+			if c, _ := r.replay["interval_class"].(string); c == "zero" || c == "negative" {
+				fp += ":interval-" + c
+			}
+			rep.Violation(fp,
+				fmt.Sprintf("real binary, telemetry switched off through route %q (reporting interval: %v): the trace shows an outbound connection attempt (%s)", r.cs.Route, c19OrUnset(r.replay["interval_seconds"]), first), r.replay)
 			continue
 		}
 		if !observerLive {
@@ -586,6 +620,13 @@ func TestVerifC19Binary(t *testing.T) {
 			rep.Sample(map[string]any{"case": r.cs.Name, "connect_classes": r.replay["connect_classes"]})
 		}
 	}
+}
+
+func c19OrUnset(v any) any {
+	if v == nil {
+		return "unset"
+	}
+	return v
 }
 
 // c19CleanEnvKeepGo: environment for `go build` (keeps GOCACHE, HOME, PATH...).
